@@ -136,6 +136,7 @@ func (ex *Exec) runPath(spec *HarnessSpec, prefix []Decision) {
 	ex.resetPath(prefix)
 	ex.preemptBound = spec.Preempt
 	ex.noIfConv = spec.Opts["ifconv"] == "off"
+	ex.fpAbstract = spec.Opts["fp"] == "abstract"
 	ex.schedAll = spec.Opts["sched"] == "all"
 	ex.specMode = false
 	ex.inModel = 0
